@@ -658,3 +658,107 @@ def replay(rep):  # noqa: F811
         print('replay: %s' % ('not reproduced' if ok else 'violation reproduced on the real code'))
         return 0 if ok else 1
     return _rp5(rep)
+
+
+# ---------------------------------------------------------------------------
+# Conversions (C03): x * t == v exactly, conformance refusals, reciprocal flag, shown factors
+_CONV_OK = [  # (query, v in base units, t in base units (value incl. constant), factor, divfactor)
+    ('10 m -> 2 ft', _F(10), _F(2) * _F(3048, 10000), '2', None),
+    ('1 mile -> 3 km / 2', _F(1609344, 1000), _F(1500), '3', '2'),
+    ('10 m -> 1.5 ft', _F(10), _F(3, 2) * _F(3048, 10000), '3', '2'),
+    ('1 m -> -2 m / 3', _F(1), _F(-2, 3), '-2', '3'),
+    ('5 km -> m', _F(5000), _F(1), None, None),
+    ('-3 inch -> cm', _F(-3) * _F(254, 10000), _F(1, 100), None, None),
+    ('1 yard -> ft', _F(9144, 10000), _F(3048, 10000), None, None),
+    ('0 m -> ft', _F(0), _F(3048, 10000), None, None),
+    ('90 km/hour -> m/s', _F(25), _F(1), None, None),
+    ('1 m -> kms', _F(1), _F(1000), None, None),
+]
+_CONV_ERR = [  # (query, expected number of suggestions; None = any error that is not a conformance error)
+    ('1 Hz -> s', 1), ('1 s -> Hz', 1), ('1 m/s -> s/m', 1),
+    ('1 m -> m^-2', 2), ('1 s -> 1/s^2', 2), ('1 Hz -> s^2', 2), ('1 W -> J', 2), ('1 m -> s', 2), ('1 m -> 0 s', 2), ('1 Hz -> 0 s', 1), ('5 -> 0 m', 2),
+    ('1 m -> 0 ft', None), ('1 m -> 0 m', None),
+]
+
+
+def _convert_witness():
+    if build_core() != 0:
+        return None
+    for q, v, t, fac, div in _CONV_OK:
+        (ln, text, raw) = run_queries([q])[0]
+        why = None
+        if text.startswith('PANIC') or text.startswith('ERR') or raw is None:
+            why = 'expected a conversion, got %r' % (text.splitlines() or [''])[0]
+        else:
+            num = raw.split(' | ')[0].strip()
+            n, d = num.split('/')
+            x = _F(int(n), int(d))
+            if x * t != v:
+                why = 'x * t = %s differs from v = %s (x = %s)' % (x * t, v, x)
+            elif (raw.split(' | ') + [''])[1].strip() != '':
+                why = 'the reported number is not dimensionless: %s' % raw
+            else:
+                fl = [l for l in text.splitlines() if l.startswith('FACTOR ')]
+                want = 'FACTOR %s DIVFACTOR %s' % ('Some("%s")' % fac if fac else 'None', 'Some("%s")' % div if div else 'None')
+                if not fl or fl[0] != want:
+                    why = 'expected %s, got %s' % (want, fl[0] if fl else None)
+        if why:
+            return {'replayer': 'convert', 'input': {'query': q, 'expected': 'x*t == v'}, 'output': text, 'why': why, 'cmd': '%s %r' % (QUERY_BIN, q)}
+    for q, nsug in _CONV_ERR:
+        (ln, text, raw) = run_queries([q])[0]
+        why = None
+        if not text.startswith('ERR'):
+            why = 'expected an error, got %r' % (text.splitlines() or [''])[0]
+        else:
+            sl = [l for l in text.splitlines() if l.startswith('SUGGESTIONS ')]
+            if nsug is None:
+                if sl:
+                    why = 'expected a division-by-zero error, got a conformance error'
+            elif not sl:
+                why = 'expected a conformance error, got %r' % text.splitlines()[0]
+            elif int(sl[0].split()[1]) != nsug:
+                why = 'expected %d suggestion(s) (%s), got %s' % (nsug, 'reciprocal flag' if nsug == 1 else 'missing factor for both sides', sl[0])
+        if why:
+            return {'replayer': 'convert', 'input': {'query': q, 'expected': 'error with %s suggestions' % nsug}, 'output': text, 'why': why, 'cmd': '%s %r' % (QUERY_BIN, q)}
+    return None
+
+
+_sf5 = search_family
+
+
+def search_family(fam, prop):  # noqa: F811
+    if fam == 'convert':
+        return _convert_witness()
+    return _sf5(fam, prop)
+
+
+_fw6 = find_witness
+
+
+def find_witness(o, rep):  # noqa: F811
+    slot = o.get('slot') or ''
+    if slot.startswith('eval_query::convert') or slot in ('conformance_err', 'Context::show'):
+        w = _convert_witness()
+        if w:
+            return w
+    return _fw6(o, rep)
+
+
+_rp6 = replay
+
+
+def replay(rep):  # noqa: F811
+    w = rep.get('replay') or {}
+    if w.get('replayer') == 'convert':
+        if build_core() != 0:
+            return 0
+        i = rep['input']
+        (ln, text, raw) = run_queries([i['query']])[0]
+        print('> ' + i['query'])
+        print(text)
+        print('expected: ' + i['expected'])
+        w2 = _convert_witness()
+        bad = bool(w2 and w2['input']['query'] == i['query'])
+        print('replay: %s' % ('violation reproduced on the real code' if bad else 'not reproduced'))
+        return 1 if bad else 0
+    return _rp6(rep)
